@@ -100,19 +100,24 @@ theorem sd_stepTask {s s' : St} {i p : Nat} {t : Task} (ht : s.tasks[i]? = some 
     · rename_i htk
       simp only [Option.some.injEq] at hstep; subst hstep
       right
-      refine ⟨htk, rfl, ?_⟩
+      simp only [Bool.and_eq_true] at htk
+      refine ⟨htk.1, rfl, ?_⟩
       simp only [setTask, sdSum_set' _ _ _ hi, hsplit, sd, reduceCtorEq, ↓reduceIte]
       omega
     · simp at hstep
   case idle =>
     simp only [stepTask] at hstep
+    split at hstep
+    · simp only [Option.some.injEq] at hstep; subst hstep
+      left; refine ⟨rfl, ?_⟩
+      simp only [setTask, sdSum_set' _ _ _ hi, hsplit, sd, reduceCtorEq, ↓reduceIte]
     cases prog with
     | nil =>
       simp at hstep; subst hstep
       left; refine ⟨rfl, ?_⟩
       simp only [setTask, sdSum_set' _ _ _ hi, hsplit, sd, reduceCtorEq, ↓reduceIte]
     | cons op rest =>
-      cases op <;> cases held <;> simp at hstep <;> subst hstep <;> left <;> refine ⟨rfl, ?_⟩ <;>
+      cases op <;> cases held <;> simp at hstep <;> (try split at hstep) <;> (try simp at hstep) <;> subst hstep <;> left <;> refine ⟨rfl, ?_⟩ <;>
         simp [setTask, sdSum_set' _ _ _ hi, hsplit, sd, List.count_cons] <;> omega
   all_goals sd_case
 
